@@ -120,6 +120,8 @@ def _m_parse_symbol_reference(interp, args, kwargs):
     return None
 
 
+M.trust('descent (C06c): symbol_syntax.is_symbol_name and parse_symbol_reference__from_str are pure functions of the '
+        'token string (same abstraction as in part (d), C06_expression.py; their meaning is C08\'s)')
 M.model(symbol_syntax.is_symbol_name, lambda interp, args, kwargs: interp.call(is_symbol_name, [args[0]], {}))
 M.model(symbol_syntax.parse_symbol_reference__from_str, _m_parse_symbol_reference)
 
